@@ -13,6 +13,7 @@ import (
 	"testing"
 
 	"github.com/enfein/mieru/v3/pkg/appctl"
+	"github.com/enfein/mieru/v3/pkg/appctl/appctlcommon"
 	pb "github.com/enfein/mieru/v3/pkg/appctl/appctlpb"
 	"github.com/enfein/mieru/v3/pkg/cipher"
 	"github.com/enfein/mieru/v3/pkg/common"
@@ -45,7 +46,9 @@ func profile(key, item string) *pb.ClientProfile {
 		p.User = &pb.User{Name: proto.String(strings.Repeat("n", 60) + "@:/?"), Password: proto.String(strings.Repeat("%", 63) + "#")}
 		p.Servers = []*pb.ServerEndpoint{
 			{DomainName: proto.String("example.com"), PortBindings: []*pb.PortBinding{{PortRange: proto.String("2000-2010"), Protocol: pb.TransportProtocol_UDP.Enum()}}},
-			{IpAddress: proto.String("2001:db8::1"), PortBindings: []*pb.PortBinding{{Port: proto.Int32(8443), Protocol: pb.TransportProtocol_TCP.Enum()}, {Port: proto.Int32(65535), Protocol: pb.TransportProtocol_UDP.Enum()}}}}
+			{IpAddress: proto.String("2001:db8::1"), PortBindings: []*pb.PortBinding{{Port: proto.Int32(8443), Protocol: pb.TransportProtocol_TCP.Enum()}, {Port: proto.Int32(65535), Protocol: pb.TransportProtocol_UDP.Enum()}}},
+			// a range of one port is a valid range
+			{IpAddress: proto.String("5.6.7.8"), PortBindings: []*pb.PortBinding{{PortRange: proto.String("8964-8964"), Protocol: pb.TransportProtocol_TCP.Enum()}}}}
 		p.Multiplexing = &pb.MultiplexingConfig{Level: pb.MultiplexingLevel_MULTIPLEXING_HIGH.Enum()}
 		p.HandshakeMode = pb.HandshakeMode_HANDSHAKE_NO_WAIT.Enum()
 		p.TrafficPattern = &pb.TrafficPattern{Seed: proto.Int32(7), Padding: &pb.PaddingPattern{MaxEndPaddingLen: proto.Int32(0)}}
@@ -445,9 +448,9 @@ func TestLinks(t *testing.T) {
 		"badTrafficPattern":    {base + "&traffic-pattern=!!!", base + "&traffic-pattern=" + base64.StdEncoding.EncodeToString([]byte{0xff, 0xff, 0xff})},
 	}
 	jsonClasses := map[string][]string{
-		"badJson":          {"{", "[1,2", "{\"profiles\": [}", "\xff\xfe"},
-		"jsonWrongType":    {"{\"socks5Port\": \"abc\"}", "{\"profiles\": {}}", "{\"rpcPort\": 1.5}", "[]", "null", "42"},
-		"jsonUnknownEnum":  {"{\"loggingLevel\": \"LOUD\"}", "{\"profiles\":[{\"profileName\":\"x\",\"multiplexing\":{\"level\":\"MAX\"}}]}"},
+		"badJson":         {"{", "[1,2", "{\"profiles\": [}", "\xff\xfe"},
+		"jsonWrongType":   {"{\"socks5Port\": \"abc\"}", "{\"profiles\": {}}", "{\"rpcPort\": 1.5}", "[]", "null", "42"},
+		"jsonUnknownEnum": {"{\"loggingLevel\": \"LOUD\"}", "{\"profiles\":[{\"profileName\":\"x\",\"multiplexing\":{\"level\":\"MAX\"}}]}"},
 	}
 	os.Unsetenv("MIERU_CONFIG_JSON_FILE")
 	store := filepath.Join(dir, "client.pb")
@@ -491,5 +494,51 @@ func TestLinks(t *testing.T) {
 			out.Emit(map[string]any{"ev": "malformed", "class": class, "input": fmt.Sprintf("server %.60q", in), "rejected": err != nil, "panic": pn,
 				"unchanged": string(sb) == string(sa), "err": ""})
 		}
+	}
+}
+
+// TestStart: a profile that passes validation can be started: the first encrypted segment of a connection is produced without a
+// crash.  User names are given in several encodings around the 64-byte limit (the limit of the wire format is in bytes).
+func TestStart(t *testing.T) {
+	out := vt.MustCreate(t, "VERIF_OUT")
+	defer out.Close()
+	names := []string{
+		strings.Repeat("a", 64), strings.Repeat("a", 65),
+		strings.Repeat("\u00fc", 32), strings.Repeat("\u00fc", 33), // two-byte letters: 64 and 66 bytes
+		strings.Repeat("\u4e2d", 21), strings.Repeat("\u4e2d", 22), // three-byte letters: 63 and 66 bytes
+		strings.Repeat("\U0001F600", 16), strings.Repeat("\U0001F600", 17), // four-byte: 64 and 68 bytes
+		"a", "user@host:/?#%&+= x",
+	}
+	for _, n := range names {
+		p := profile("k1", "A")
+		p.User.Name = proto.String(n)
+		rec := map[string]any{"ev": "start", "name_bytes": len(n), "name_runes": len([]rune(n)), "valid": false, "ok": false, "err": "", "panic": ""}
+		if err := appctlcommon.ValidateClientConfigSingleProfile(p); err != nil {
+			rec["err"] = err.Error()
+			rec["ok"] = true // refused by validation: nothing to start
+			out.Emit(rec)
+			continue
+		}
+		rec["valid"] = true
+		err, pn := guard(func() error {
+			// what the client does for the first segment of a connection (mux.newUnderlay + the first encryption)
+			hashed := cipher.HashPassword([]byte(p.GetUser().GetPassword()), []byte(n))
+			for _, stateless := range []bool{true, false} {
+				block, err := cipher.BlockCipherFromPassword(hashed, stateless)
+				if err != nil {
+					return err
+				}
+				block.SetBlockContext(cipher.BlockContext{UserName: n})
+				if err := block.Encrypt(make([]byte, 0, 256), make([]byte, 32)); err != nil {
+					return err
+				}
+			}
+			return nil
+		})
+		if err != nil {
+			rec["err"] = err.Error()
+		}
+		rec["panic"], rec["ok"] = pn, err == nil && pn == ""
+		out.Emit(rec)
 	}
 }
